@@ -15,7 +15,7 @@ CLAIMED = {
         "after a merge. Real workflows with leaf / macro / nested macro / root placements across an emulated pickle boundary "
         "(and a few real thread/process/cloudpickle-process/instruction executors) are compared with the model on graphs reflected "
         "from the real objects.",
-   design="13/C10", technique="Coq proofs over a heap with identities + instance of the C01 schedule theorem + differential correspondence across a pickle boundary + oracle",
+   design="13/C10", technique="Coq proofs over a heap with identities + instance of the C01 schedule theorem + Node.data_input_locked REGENERATED from node.py on every run and proved to be the flag the model's lock reads (translator tie) + differential correspondence across a pickle boundary + oracle",
    note="The pickle round trip itself is C07's; For body construction, caches and hints are outside this layer. Full merge theorems "
         "hold for the code after fix 0e04eb3 (S15 and three merge defects). Known finding: a workflow's inputs (its children's "
         "channels) stay writable while the workflow itself is out on an executor."),
@@ -155,7 +155,7 @@ CLAIMED = {
         "theorems; the statement with silent internal edits of a composite is refuted (known finding S5). Both machines are "
         "compared step by step with real nodes (cached and uncached), and the twin comparison on the real library (leaf nodes "
         "and macros with child additions, replacements, silent edits) is the oracle.",
-   design="7/C05", technique="Coq simulation proof (twin machines, invariant over histories) + differential correspondence + twin oracle on the real library",
+   design="7/C05", technique="Coq simulation proof (twin machines, invariant over histories) + Node.cache_hit REGENERATED from node.py on every run and proved equal to the model's cache_hit (translator tie) + differential correspondence + twin oracle on the real library",
    note="Composite internals are abstracted to a configuration value; for-loop rebuild on miss is covered by C16. Functions are "
         "assumed deterministic and non-mutating; executor runs are observed at completion."),
  "C02": dict(
